@@ -364,7 +364,26 @@ fn c19_subst<H: Hasher>(n: usize, hname: &str) -> Outcome {
     let indexes = draw_indexes(n);
     let (bleaves, bproof) = tree.prove_batch(&indexes).expect("prove_batch");
     let (mut idx2, mut leaves2, mut proof2) = (indexes.clone(), bleaves.clone(), clone_proof(&bproof));
-    let kind = match tape::f("batch.fault", 5) {
+    let kind = match tape::f("batch.fault", 6) {
+        5 => {
+            // an index listed twice with something in between: the first copy carries a forged
+            // leaf, the second copy the genuine one (the proof is the honest one for the set); a
+            // verifier that keeps only the last copy of an index never hashes the forged leaf
+            if idx2.len() < 2 {
+                return Ok(());
+            }
+            let k = tape::f("batch.duppos", idx2.len() as u64 - 1) as usize;
+            let (i, genuine) = (idx2[k], leaves2[k]);
+            let forged = other_digest::<H>(genuine, 5);
+            // which copy carries the forged leaf (a verifier may keep the first or the last)
+            let forged_first = tape::f("batch.dup_forged_first", 2) == 0;
+            leaves2[k] = if forged_first { forged } else { genuine };
+            // at the end, or anywhere after at least one other entry
+            let at = k + 2 + tape::f("batch.dupgap", (idx2.len() - k - 1) as u64) as usize;
+            idx2.insert(at.min(idx2.len()), i);
+            leaves2.insert(at.min(leaves2.len()), if forged_first { genuine } else { forged });
+            "index_dup_apart_with_one_forged_copy"
+        },
         0 => {
             let k = tape::f("batch.leaf", leaves2.len() as u64) as usize;
             leaves2[k] = other_digest::<H>(leaves2[k], 3);
